@@ -77,14 +77,38 @@ fn nonzero_elt(r: &mut Rng, b: &[u64]) -> u64 {
 #[repr(C)]
 struct Big<const W: usize>([u64; W]);
 
+/// guard elements on either side of a slice handed to an in-place routine that uses unchecked indexing
+const GUARD: usize = 80;
+fn guard_id(i: usize) -> u64 { 0x6A5D_0000 + i as u64 }
+
 fn inplace_case<T: Copy>(o: &mut Out, ids: &[u64], mk: impl Fn(u64) -> T, id: impl Fn(&T) -> u64) {
     let sz = std::mem::size_of::<T>() as u64;
     let args = cat(&[&[sz], ids]);
     o.case("revidx_inplace", &args, || {
-        let mut v: Vec<T> = ids.iter().map(|&x| mk(x)).collect();
-        reverse_index_bits_in_place(&mut v);
-        v.iter().map(|t| id(t)).collect()
+        // the slice sits between guard elements owned by the harness: a write outside the slice is then seen
+        // (and reported with the input) instead of corrupting the allocator's memory
+        let n = ids.len();
+        let mut v: Vec<T> = (0..GUARD).map(|i| mk(guard_id(i))).chain(ids.iter().map(|&x| mk(x)))
+            .chain((GUARD..2 * GUARD).map(|i| mk(guard_id(i)))).collect();
+        reverse_index_bits_in_place(&mut v[GUARD..GUARD + n]);
+        for i in 0..2 * GUARD {
+            let at = if i < GUARD { i } else { n + i };
+            if id(&v[at]) != id(&mk(guard_id(i))) { return vec![u64::MAX, 0xBAD_0B, i as u64]; }
+        }
+        v[GUARD..GUARD + n].iter().map(|t| id(t)).collect()
     });
+}
+
+fn guarded_transpose(ids: &[u64], lb_stride: usize, lb_size: usize, x: usize) -> Vec<u64> {
+    let n = ids.len();
+    let g = GUARD << 3;
+    let mut v: Vec<u64> = (0..g).map(guard_id).chain(ids.iter().copied()).chain((g..2 * g).map(guard_id)).collect();
+    unsafe { plonky2_util::verif_hooks::transpose_in_place_square(&mut v[g..g + n], lb_stride, lb_size, x) };
+    for i in 0..2 * g {
+        let at = if i < g { i } else { n + i };
+        if v[at] != guard_id(i) { return vec![u64::MAX, 0xBAD_0B, i as u64]; }
+    }
+    v[g..g + n].to_vec()
 }
 
 fn big_case<const W: usize>(o: &mut Out, ids: &[u64]) {
@@ -214,11 +238,7 @@ fn util_cases(o: &mut Out, r: &mut Rng, thorough: bool) {
                 let len = need + (r.below(3) as usize) * (r.below(17) as usize);
                 let ids = ids_for(r, len);
                 let args = cat(&[&[lb_stride as u64, lb_size as u64, x as u64], &ids]);
-                o.case("transpose", &args, || {
-                    let mut v = ids.clone();
-                    unsafe { plonky2_util::verif_hooks::transpose_in_place_square(&mut v, lb_stride, lb_size, x) };
-                    v
-                });
+                o.case("transpose", &args, || guarded_transpose(&ids, lb_stride, lb_size, x));
             }
         }
     }
@@ -228,11 +248,7 @@ fn util_cases(o: &mut Out, r: &mut Rng, thorough: bool) {
         let len = ((side - 1) << lb_stride) + side;
         let ids = ids_for(r, len);
         let args = cat(&[&[lb_stride as u64, lb_size as u64, x as u64], &ids]);
-        o.case("transpose", &args, || {
-            let mut v = ids.clone();
-            unsafe { plonky2_util::verif_hooks::transpose_in_place_square(&mut v, lb_stride, lb_size, x) };
-            v
-        });
+        o.case("transpose", &args, || guarded_transpose(&ids, lb_stride, lb_size, x));
     }
 }
 
